@@ -114,6 +114,19 @@ def strategy_(draw, tier):
             prefix = draw(st.sampled_from(closed)) if (closed and draw(st.integers(0, 2)) == 0) else None
             line, read = draw(rc.realign_record(g, lm, name, rnd, comment=comment, prefix=prefix, max_len=3 if prefix else 5))
         lines.append(line)
+        if not long_class and draw(st.integers(0, 3)) == 0:
+            # a split alignment: the next record belongs to the same read, with another query interval
+            line2, read2 = draw(rc.realign_record(g, lm, name, rnd, max_len=4))
+            f2 = line2.split("\t")
+            off = len(read) + 3
+            f2[1] = str(off + int(f2[1]))
+            f2[2] = str(off + int(f2[2]))
+            f2[3] = str(off + int(f2[3]))
+            f1 = lines[-1].split("\t")
+            f1[1] = f2[1]
+            lines[-1] = "\t".join(f1)
+            lines.append("\t".join(f2))
+            read = read + "TTT" + read2
         fasta.append(">%s\n%s\n" % (name, read))
     return {"gfa": gen_graph.gfa_text(g, with_seq=True, order_seed=draw(st.integers(0, 99))), "gaf": lines,
             "fasta": "".join(fasta), "cores": draw(st.integers(1, 2)), "batch": draw(st.integers(1, 3)),
@@ -268,6 +281,9 @@ def run_case(case):
             nontrivial = True
     if case.get("long"):
         cl.add("long_class")
+    names_ = [l.split("\t")[0].split(" ")[0] for l in case["gaf"]]
+    if any(a == b for a, b in zip(names_, names_[1:])):
+        cl.add("consecutive_records_of_one_read")
     if case.get("kind") == "real":
         cl.add("real_processes")
     return core.Result(nontrivial, sorted(cl))
@@ -303,5 +319,37 @@ def enumerations(tier, shard, nshards):
         yield {"gfa": "S\ta\tACGTTGCA\tLN:i:8\tSN:Z:chr1\tSO:i:0\tSR:i:0\nS\tb\tGGATC\tLN:i:5\tSN:Z:chr1\tSO:i:8\tSR:i:0\nL\ta\t+\tb\t+\t0M\n",
                "gaf": ["r1\t9\t1\t8\t+\t<b<a\t13\t2\t9\t7\t7\t60\tcg:Z:7="], "fasta": ">r1\nTTCCTGCAA\n", "cores": 2, "batch": 1,
                "kind": "real"}
+
+    def verylong():
+        # 12 000-20 000 read bases with six indels of 100-200 bp: only such inputs separate exact from heuristic alignment
+        for seed in (1, 2):
+            rnd = random.Random(100 + seed)
+            n = 12000 + 4000 * seed
+            ref = "".join(rnd.choice("ACGT") for _ in range(n))
+            gfa = "S\tv1\t%s\tLN:i:%d\tSN:Z:chr1\tSO:i:0\tSR:i:0\n" % (ref, n)
+            pos = 50
+            seg, ops = [], []
+            step = (n - 400) // 7
+            for k in range(6):
+                m = step - rnd.randint(0, 50)
+                seg.append(ref[pos:pos + m])
+                ops.append((m, "="))
+                pos += m
+                ln = rnd.randint(100, 200)
+                if k % 2 == 0:
+                    seg.append("".join(rnd.choice("ACGT") for _ in range(ln)))
+                    ops.append((ln, "I"))
+                else:
+                    ops.append((ln, "D"))
+                    pos += ln
+            seg.append(ref[pos:n - 20])
+            ops.append((n - 20 - pos, "="))
+            segment = "".join(seg)
+            cg = rc.cigar_str(rc.merge_ops(ops))
+            line = "vl%d\t%d\t3\t%d\t+\t>v1\t%d\t50\t%d\t%d\t%d\t60\tcg:Z:%s" % (
+                seed, len(segment) + 6, 3 + len(segment), n, n - 20, sum(k for k, o in ops if o == "="), sum(k for k, o in ops), cg)
+            yield {"gfa": gfa, "gaf": [line], "fasta": ">vl%d\nAAA%sTTT\n" % (seed, segment), "cores": 1, "batch": 1, "kind": "sim"}
+
+    yield ("reads of 16 000 and 20 000 bases with six indels of 100-200 bp", verylong(), True)
 
     yield ("60000 / 60001 read-base boundary of the pass-through rule (simulated and real processes) + one real-process reverse-walk case", gen(), True)
